@@ -27,6 +27,16 @@ fn rand_next_bits_contract() {
 }
 
 // @ob props=C19 tier=quick kind=P cfg=core-std timeout=120
+// @fn Xorshift64::from_seed
+// @clause contract of from_seed (in place): a non-zero seed becomes the generator state unchanged (so equal seeds give equal states); its precondition seed != 0 is asserted at every call site
+#[cfg(not(verif_skip_rand_from_seed_contract))]
+#[kani::proof_for_contract(Xorshift64::from_seed)]
+fn rand_from_seed_contract() {
+    let s: u64 = kani::any();
+    let _ = Xorshift64::from_seed(s);
+}
+
+// @ob props=C19 tier=quick kind=P cfg=core-std timeout=120
 // @fn Xorshift64::next_bits
 // @clause the step function is injective on all 2^64 states, hence (with the contract) a bijection of the non-zero states
 #[cfg(not(verif_skip_rand_step_injective))]
